@@ -2,19 +2,20 @@
   GeoProofs.Props.ParseBridge — final statements of the parser bridge: the definitions regenerated
   from /repo's parsers (GeoModel/Generated/ParseGen.lean), instantiated with the hand model's AST
   operations (GeoProofs/Glue/ParseGlue.lean: `PGlue.mops`), agree with the hand model
-  (GeoModel/Json.lean).  DONE here: the position reader, parseBBoxAndExtras, toGeometryOpts, the line
-  coordinates reader, and the leaf kinds Point and LineString (generated parseJSONPoint /
-  parseJSONLineString = the "Point" / "LineString" arm of `parse`); round 2: parseJSONPolygonCoords,
-  parseJSONPolygon (AllowRects, RequireValid; finite ring positions), parseInitRectIndex (children R-tree
-  flag, pempty = allEmpty, prect = collRect), parseJSONGeometryCollection / parseJSONFeatureCollection
-  (given the recursion parameter one level down), the member scan of parseJSON (= scanKeys: KeysRel is
-  DISCHARGED from the source), the type checks and the dispatch of parseJSON, and Parse (nil options,
-  leading-byte loop).  NOT proved: parseJSONMultiPoint / MultiLineString / MultiPolygon / Feature — they
-  enter `parseJSON_bridge` / `Parse_level_bridge` as the explicit hypothesis `KindHyps`; the closing
-  induction over the nesting depth (rec := the generated Parse one level down) and the derivation of
-  `PolyFin` from NoOverflowLit are not done either: `Parse_level_bridge` is the induction step.
+  (GeoModel/Json.lean).  DONE: every parser function — the position / line / polygon coordinate readers, parseBBoxAndExtras,
+  toGeometryOpts, Point, LineString, Polygon (AllowRects, RequireValid), MultiPoint, MultiLineString,
+  MultiPolygon, parseInitRectIndex (tree flag, pempty = allEmpty, prect = collRect), GeometryCollection,
+  FeatureCollection, Feature (Tile38 Circle recognition), the member scan of parseJSON (= scanKeys), its
+  type checks and dispatch, Parse (nil options, leading-byte loop) — and the closing induction over the
+  nesting depth: `parse_bridge`.
+  Document hypothesis `JOK v`: NoOverflowLit (every number literal has fin = true) and no number literal's
+  text is the word "Circle" (JSON grammar).  Error agreement is `AgreeU`: the model's `unmodelled`
+  (string-valued circle radius) is not compared, the argument of the unknown-type error is not compared.
+  gjson contracts are encoded in the instance `PGlue.mops` (ParseGlue.lean), not as hypotheses: Raw of a
+  value is non-empty, starts with the byte its kind dictates, pretty.Ugly ∘ Raw = the model's render, Get on
+  the members text built by parseJSON finds the members, ForEach offers the members / elements in order.
 -/
-import GeoProofs.Glue.ParseGlueTop
+import GeoProofs.Glue.ParseGlueFinal
 
 set_option linter.unusedSimpArgs false
 
@@ -115,16 +116,18 @@ theorem parseInitRectIndex_bridge (rec : RecT) (kind : CollKind) (c : GColl) (o 
 
 /-- BRIDGE, GeometryCollection / FeatureCollection (recursion parameter right one level down) -/
 theorem parseJSONGeometryCollection_bridge (rec : RecT) (o : POpts) (fuel : Nat) (hrec : RecOK rec o fuel) (gk : GKeys)
-    (ms : List Mem) (raw : String) (ht : (scanKeys ms).type = some (.str raw "GeometryCollection")) (hk : KeysRel gk (scanKeys ms)) :
+    (ms : List Mem) (raw : String) (ht : (scanKeys ms).type = some (.str raw "GeometryCollection")) (hk : KeysRel gk (scanKeys ms))
+    (hJ : ∀ items, (scanKeys ms).geometries = some (.arr items) → ∀ v ∈ items, JOK v = true) :
     AgreeU (PGen.parseJSONGeometryCollection (mops rec) (some gk) (some (optsG o))) (parse o (fuel + 1) (.obj ms)) := by
   rw [(parse_arm o fuel ms raw "GeometryCollection" ht).2.2.2.1 rfl]
-  exact gcoll_eq rec o fuel hrec gk _ hk
+  exact gcoll_eq rec o fuel hrec gk _ hk hJ
 
 theorem parseJSONFeatureCollection_bridge (rec : RecT) (o : POpts) (fuel : Nat) (hrec : RecOK rec o fuel) (gk : GKeys)
-    (ms : List Mem) (raw : String) (ht : (scanKeys ms).type = some (.str raw "FeatureCollection")) (hk : KeysRel gk (scanKeys ms)) :
+    (ms : List Mem) (raw : String) (ht : (scanKeys ms).type = some (.str raw "FeatureCollection")) (hk : KeysRel gk (scanKeys ms))
+    (hJ : ∀ items, (scanKeys ms).features = some (.arr items) → ∀ v ∈ items, JOK v = true) :
     AgreeU (PGen.parseJSONFeatureCollection (mops rec) (some gk) (some (optsG o))) (parse o (fuel + 1) (.obj ms)) := by
   rw [(parse_arm o fuel ms raw "FeatureCollection" ht).2.2.2.2 rfl]
-  exact fcoll_eq rec o fuel hrec gk _ hk
+  exact fcoll_eq rec o fuel hrec gk _ hk hJ
 
 /-- BRIDGE, the member scan of parseJSON = scanKeys (KeysRel discharged from the source) -/
 theorem scan_bridge (rec : RecT) (ms : List Mem) :
@@ -133,32 +136,77 @@ theorem scan_bridge (rec : RecT) (ms : List Mem) :
       KeysRel (if (flat fm).length > 0 then { gk with members := fm ++ [Piece.ch '}'] } else gk) (scanKeys ms) :=
   scan_keys rec ms
 
-/-- BRIDGE, parseJSON (scan, type checks, dispatch) = parse on an object -/
-theorem parseJSON_bridge (rec : RecT) (o : POpts) (fuel : Nat) (hrec : RecOK rec o fuel) (hk : KindHyps rec o fuel)
-    (ms : List Mem) (hfin : PolyFin ms) :
-    AgreeU (PGen.parseJSON (mops rec) [Piece.doc (.obj ms)] (some (optsG o))) (parse o (fuel + 1) (.obj ms)) :=
-  parseJSON_eq rec o fuel hrec hk ms hfin
-
 /-- BRIDGE, Parse: nil options are the defaults -/
 theorem defaultOptions_bridge (rec : RecT) : PGen.DefaultParseOptions (mops rec) = some (optsG {}) := rfl
 
-/-- BRIDGE, Parse (leading-byte loop; fuel ≥ number of leading whitespace bytes + 1): the induction step
-    of `generated Parse = parse` over the nesting depth -/
-theorem Parse_level_bridge (rec : RecT) (o : POpts) (fuel : Nat) (hrec : RecOK rec o fuel) (hk : KindHyps rec o fuel)
-    (ws : List Char) (hws : ∀ c ∈ ws, isWs c = true) (v : JVal) (hfin : ∀ ms, v = .obj ms → PolyFin ms) (n : Nat) :
-    ∃ g, PGen.Parse (mops rec) (ws.length + 1 + n) (ws.map Piece.ch ++ [Piece.doc v]) (some (optsG o)) = some g ∧
-      AgreeU g (parse o (fuel + 1) v) :=
-  Parse_level rec o fuel hrec hk ws hws v hfin n
+/-- BRIDGE, MultiPoint / MultiLineString / MultiPolygon / Feature: the four kinds, for an object without
+    overflowing literals (what `parseJSON` needs about them) -/
+theorem kinds_bridge (rec : RecT) (o : POpts) (fuel : Nat) (hrec : RecOK rec o fuel) (ms : List Mem) (h : JOKM ms = true) :
+    KindHyps rec o fuel ms :=
+  kindHyps_of rec o fuel hrec ms h
 
+theorem parseJSONMultiPoint_bridge (rec : RecT) (gk : GKeys) (o : POpts) (fuel : Nat) (ms : List Mem) (raw : String)
+    (ht : (scanKeys ms).type = some (.str raw "MultiPoint")) (hk : KeysRel gk (scanKeys ms)) :
+    Agree (PGen.parseJSONMultiPoint (mops rec) (some gk) (some (optsG o))) (parse o (fuel + 1) (.obj ms)) := by
+  rw [parse_multiPoint o fuel ms raw ht]; exact multiPoint_eq rec gk o _ hk
+
+theorem parseJSONMultiLineString_bridge (rec : RecT) (gk : GKeys) (o : POpts) (fuel : Nat) (ms : List Mem) (raw : String)
+    (ht : (scanKeys ms).type = some (.str raw "MultiLineString")) (hk : KeysRel gk (scanKeys ms)) :
+    Agree (PGen.parseJSONMultiLineString (mops rec) (some gk) (some (optsG o))) (parse o (fuel + 1) (.obj ms)) := by
+  rw [parse_multiLineString o fuel ms raw ht]; exact multiLineString_eq rec gk o _ hk
+
+theorem parseJSONMultiPolygon_bridge (rec : RecT) (gk : GKeys) (o : POpts) (fuel : Nat) (ms : List Mem) (raw : String)
+    (ht : (scanKeys ms).type = some (.str raw "MultiPolygon")) (hk : KeysRel gk (scanKeys ms)) (hJ : JOKM ms = true) :
+    Agree (PGen.parseJSONMultiPolygon (mops rec) (some gk) (some (optsG o))) (parse o (fuel + 1) (.obj ms)) := by
+  rw [parse_multiPolygon o fuel ms raw ht]
+  exact multiPolygon_eq rec gk o _ hk
+    (fun rc hrc v hv => polyFinV_of_JOK v (JOK_elems rc ((scan_ok ms hJ).1 rc hrc) v hv))
+
+theorem parseJSONFeature_bridge (rec : RecT) (o : POpts) (fuel : Nat) (hrec : RecOK rec o fuel) (gk : GKeys) (ms : List Mem)
+    (raw : String) (ht : (scanKeys ms).type = some (.str raw "Feature")) (hk : KeysRel gk (scanKeys ms)) (hJ : JOKM ms = true) :
+    AgreeU (PGen.parseJSONFeature (mops rec) (some gk) (some (optsG o))) (parse o (fuel + 1) (.obj ms)) :=
+  (kindHyps_of rec o fuel hrec ms hJ).feature gk raw ht hk
+
+/-- BRIDGE (2): the polygon bridges under NoOverflowLit alone -/
+theorem polyFin_bridge (ms : List Mem) (hJ : JOKM ms = true) : PolyFin ms :=
+  fun rc rings ex hrc hp => polyFinV_of_JOK rc ((scan_ok ms hJ).1 rc hrc) rings ex hp
+
+/-- BRIDGE, parseJSON on an object without overflowing literals -/
+theorem parseJSON_bridge (rec : RecT) (o : POpts) (fuel : Nat) (hrec : RecOK rec o fuel) (ms : List Mem) (hJ : JOKM ms = true) :
+    AgreeU (PGen.parseJSON (mops rec) [Piece.doc (.obj ms)] (some (optsG o))) (parse o (fuel + 1) (.obj ms)) :=
+  parseJSON_eq rec o fuel hrec ms (kindHyps_of rec o fuel hrec ms hJ) (polyFin_bridge ms hJ)
+    (fun items hgs x hx => JOKL_mem items (by simpa [JOK] using (scan_ok ms hJ).2.1 _ hgs) x hx)
+    (fun items hfs x hx => JOKL_mem items (by simpa [JOK] using (scan_ok ms hJ).2.2.2.1 _ hfs) x hx)
+
+/-- BRIDGE (3), the closing statement: generated Parse (recursion parameter := generated Parse, v.depth
+    levels; loop fuel ≥ leading whitespace + 1) on whitespace ++ text of v = the model's parseTop -/
+theorem parse_bridge (o : POpts) (v : JVal) (hv : JOK v = true) (ws : List Char) (hws : ∀ c ∈ ws, isWs c = true) (n : Nat) :
+    ∃ g, PGen.Parse (mops (genParse o v.depth)) (ws.length + 1 + n) (ws.map Piece.ch ++ [Piece.doc v]) (some (optsG o)) = some g ∧
+      AgreeU g (parseTop o v) :=
+  PGlue.parse_bridge o v hv ws hws n
+
+/-- the same with nil options (the defaults) -/
+theorem parse_bridge_nil (v : JVal) (hv : JOK v = true) (ws : List Char) (hws : ∀ c ∈ ws, isWs c = true) (n : Nat) :
+    ∃ g, PGen.Parse (mops (genParse {} v.depth)) (ws.length + 1 + n) (ws.map Piece.ch ++ [Piece.doc v]) none = some g ∧
+      AgreeU g (parseTop {} v) :=
+  PGlue.parse_bridge_nil v hv ws hws n
+
+#print axioms kinds_bridge
+#print axioms parseJSONMultiPoint_bridge
+#print axioms parseJSONMultiLineString_bridge
+#print axioms parseJSONMultiPolygon_bridge
+#print axioms parseJSONFeature_bridge
+#print axioms polyFin_bridge
+#print axioms parseJSON_bridge
+#print axioms parse_bridge
+#print axioms parse_bridge_nil
 #print axioms parseJSONPolygonCoords_bridge
 #print axioms parseJSONPolygon_bridge
 #print axioms parseInitRectIndex_bridge
 #print axioms parseJSONGeometryCollection_bridge
 #print axioms parseJSONFeatureCollection_bridge
 #print axioms scan_bridge
-#print axioms parseJSON_bridge
 #print axioms defaultOptions_bridge
-#print axioms Parse_level_bridge
 #print axioms parseJSONPoint_bridge
 #print axioms parseJSONLineString_bridge
 #print axioms parseJSONPointCoords_bridge
